@@ -622,3 +622,22 @@ Definition prefix_of (base : Z) : list Z :=
 Definition print_prefixed (base z : Z) : list Z :=
   let a := Z.abs z in
   (if z <? 0 then [45] else []) ++ prefix_of base ++ map digit_char (digits_of (Z.to_nat (Z.log2 a)) base a).
+
+(* =====================================================================
+   repetition guards (eval.go tupleRepeat / stringRepeat): the length of x * n
+     if len == 0 -> empty; i, err := AsInt32(n) (error: "repeat count too large");
+     if i < 1 -> empty; of, sz := bits.Mul(uint(len), uint(i));
+     if of != 0 || sz >= maxAlloc -> error; else sz elements
+   ===================================================================== *)
+Definition maxAlloc : Z := 1073741824.
+
+Definition repeat_len (I : int_impl) (len : Z) (n : T I) : res Z :=
+  if len =? 0 then Ok 0
+  else match AsInt32 I n with
+       | None => Err
+       | Some i =>
+           if i <? 1 then Ok 0
+           else let p := wrapu64 len * wrapu64 i in
+                let of_ := p / 18446744073709551616 in let sz := p mod 18446744073709551616 in
+                if negb (of_ =? 0) || (maxAlloc <=? sz) then Err else Ok sz
+       end.
